@@ -568,7 +568,7 @@ def bounded(tier, seed):
     res = native("ops.py", {"configs": configs, "grids_per_config": 2 if tier == "quick" else 6, "seed": seed, "shifted_grids": True}, timeout=3000)
     if not res.get("ok"):
         raise RuntimeError(f"native driver failed: {res}")
-    return [engine_crosscheck(tier, seed), {"name": "numba_operators_vs_spec", "bound": f"{len(configs)} configurations x {2 if tier == 'quick' else 6} random grids (<=5 cells per axis), one random field each; grid.make_operator with BCs on pairs of curvilinear grids that differ only by a shift of their bounds",
+    return [engine_crosscheck(tier, seed), {"name": "numba_operators_vs_spec", "bound": f"{len(configs)} configurations x {2 if tier == 'quick' else 6} random grids (<=5 cells per axis), one random field each; grid.make_operator with BCs on pairs of curvilinear grids that differ only by a shift of their bounds; one integer-typed field (gradient, fixed witness)",
              "cases": res["cases"], "failures": res["failures"]}]
 
 
